@@ -1,5 +1,5 @@
 (* Soundness of Validators/ForestSound.v. *)
-From Coq Require Import NArith List Bool Lia.
+From Coq Require Import NArith List Bool Lia Arith PeanoNat.
 From PV Require Import Spec.Cfg Model.Forest Validators.ForestSound Proofs.ForestProofs.
 Import ListNotations.
 Local Open Scope N_scope.
@@ -429,3 +429,135 @@ Section UserFacing.
     - intros ->. cbn in Hfl. apply N.eqb_eq in Hfl. exact Hfl.
   Qed.
 End UserFacing.
+
+(* ---- labelled (cycle-tolerant) validator ----------------------------------------------- *)
+
+Scheme unfolds_ind2 := Induction for unfolds Sort Prop
+  with unfolds_list_ind2 := Induction for unfolds_list Sort Prop.
+
+Section LabelledSound.
+  Variable g : grammar.
+  Variable tokok : N -> N -> N -> bool.
+  Variable sk : N -> N.
+  Variable strict : bool.
+
+  Lemma nodes_consistent_nth labels k0 ns k n :
+    nodes_consistent g tokok sk strict labels k0 ns = true ->
+    nth_error ns k = Some n -> node_consistent g tokok sk strict labels (k0 + k) n = true.
+  Proof.
+    revert k0 k. induction ns as [|m r IH]; intros k0 k H Hn; [destruct k; discriminate|].
+    cbn in H. apply andb_true_iff in H. destruct H as [Hm Hr].
+    destruct k as [|k]; cbn in Hn.
+    - inversion Hn; subst. rewrite Nat.add_0_r. exact Hm.
+    - replace (k0 + S k)%nat with (S k0 + k)%nat by lia. apply IH; assumption.
+  Qed.
+
+  Lemma onsum_eqb_eq a b : onsum_eqb a b = true -> exists x, a = Some x /\ b = Some x.
+  Proof.
+    destruct a as [x|], b as [y|]; cbn; try discriminate. intros H.
+    apply nsum_eqb_eq in H. subst. eauto.
+  Qed.
+
+  (* every tree unfolding from a consistent part of the forest has its node's label *)
+  Theorem unfolds_label (below : forest) (labels : list (option nsum)) :
+    nodes_consistent g tokok sk strict labels 0 below = true ->
+    forall k t, unfolds below k t ->
+      exists sm, nth k labels None = Some sm /\ tsum g tokok sk strict t = Some sm.
+  Proof.
+    intros Hc.
+    apply (unfolds_ind2 below
+             (fun k t _ => exists sm, nth k labels None = Some sm /\ tsum g tokok sk strict t = Some sm)
+             (fun cs ts _ => forall kids, all_some (map (fun c => nth c labels None) cs) = Some kids ->
+                                          all_some (map (tsum g tokok sk strict) ts) = Some kids)).
+    - intros k y s e Hin.
+      destruct (nth_error below k) as [n|] eqn:En;
+        [|apply nth_error_None in En; rewrite nth_overflow in Hin by exact En; destruct Hin].
+      rewrite (nth_error_nth _ _ _ En) in Hin.
+      pose proof (nodes_consistent_nth labels 0 below k n Hc En) as Hn. cbn in Hn.
+      unfold node_consistent in Hn. rewrite forallb_forall in Hn. specialize (Hn _ Hin).
+      apply onsum_eqb_eq in Hn. destruct Hn as (x & Hx & Hl). exists x. split; [exact Hl|exact Hx].
+    - intros k p s e cs ts Hin Hl IH.
+      destruct (nth_error below k) as [n|] eqn:En;
+        [|apply nth_error_None in En; rewrite nth_overflow in Hin by exact En; destruct Hin].
+      rewrite (nth_error_nth _ _ _ En) in Hin.
+      pose proof (nodes_consistent_nth labels 0 below k n Hc En) as Hn. cbn in Hn.
+      unfold node_consistent in Hn. rewrite forallb_forall in Hn. specialize (Hn _ Hin).
+      apply onsum_eqb_eq in Hn. destruct Hn as (x & Hx & Hlab). exists x. split; [exact Hlab|].
+      cbn [fsum_alt] in Hx. cbn [tsum].
+      destruct (all_some (map (fun c => nth c labels None) cs)) as [kids|] eqn:Hk; [|discriminate].
+      rewrite (IH kids eq_refl). exact Hx.
+    - intros kids H. cbn in H. inversion H. reflexivity.
+    - intros c cs t ts Hu IHu Hl IHl kids H. cbn [map all_some] in *.
+      destruct IHu as (sm & Hlab & Hts). rewrite Hlab in H. rewrite Hts.
+      destruct (all_some (map (fun c0 => nth c0 labels None) cs)) as [ks|] eqn:Hk; [|discriminate].
+      rewrite (IHl ks eq_refl). exact H.
+  Qed.
+
+  Variables (start pos0 in_len : N) (consume : bool).
+
+  (* the trees that unfold from the ROOT: choose a root alternative, unfold its children in
+     the part of the forest below the root *)
+  Inductive root_unfolds (F : forest) : tree -> Prop :=
+  | ru_term below root y s e : F = below ++ [root] -> In (ATerm y s e) root ->
+                               root_unfolds F (TLeaf y s e)
+  | ru_nt below root p s e cs ts : F = below ++ [root] -> In (ANT p s e cs) root ->
+                                   unfolds_list below cs ts -> root_unfolds F (TNode p s e ts).
+
+  Theorem forest_labelled_valid F labels :
+    forest_ok_labelled g tokok sk strict start pos0 in_len consume F labels = true ->
+    forall t, root_unfolds F t ->
+    exists sm, tsum g tokok sk strict t = Some sm /\ root_ok sk start pos0 in_len consume sm = true.
+  Proof.
+    unfold forest_ok_labelled. destruct (rev F) as [|root rbelow] eqn:Hrev; [discriminate|].
+    assert (HF : F = rev rbelow ++ [root]) by (rewrite <- (rev_involutive F), Hrev; reflexivity).
+    intros H t Ht. apply andb_true_iff in H. destruct H as [H Hroot].
+    apply andb_true_iff in H. destruct H as [Hc _].
+    rewrite forallb_forall in Hroot.
+    assert (Hsame : forall below' root', F = below' ++ [root'] -> below' = rev rbelow /\ root' = root).
+    { intros b' r' E. rewrite HF in E. apply app_inj_tail in E. destruct E; auto. }
+    destruct Ht as [below' root' y s e E Hin | below' root' p s e cs ts E Hin Hl].
+    - destruct (Hsame _ _ E) as [-> ->]. specialize (Hroot _ Hin). cbn [fsum_alt] in Hroot.
+      cbn [tsum]. destruct (check_leaf tokok strict y s e) as [sm|]; [|discriminate]. eauto.
+    - destruct (Hsame _ _ E) as [-> ->]. specialize (Hroot _ Hin). cbn [fsum_alt] in Hroot.
+      cbn [tsum].
+      destruct (all_some (map (fun c => nth c labels None) cs)) as [kids|] eqn:Hk; [|discriminate].
+      assert (Hkids : all_some (map (tsum g tokok sk strict) ts) = Some kids).
+      { clear -Hc Hl Hk. revert kids Hk. induction Hl as [|c cs t ts Hu Hl IH]; intros kids Hk.
+        - cbn in *. exact Hk.
+        - cbn [map all_some] in *.
+          destruct (unfolds_label _ _ Hc _ _ Hu) as (sm & Hlab & Hts). rewrite Hlab in Hk. rewrite Hts.
+          destruct (all_some (map (fun c0 => nth c0 labels None) cs)) as [ks|] eqn:Hks; [|discriminate].
+          rewrite (IH ks eq_refl). exact Hk. }
+      rewrite Hkids. destruct (check_node g sk strict p s e kids) as [sm|]; [|discriminate]. eauto.
+  Qed.
+End LabelledSound.
+
+(* cyclic forests: every finite tree unfolding from the root (the last node) of a forest that
+   passes the full labelled check is a derivation tree of the input *)
+Theorem forest_labelled_full_valid g tokok sk strict start pos0 in_len consume F labels :
+  forest_ok_labelled_full g tokok sk strict start pos0 in_len consume F labels = true ->
+  forall t, unfolds F (pred (length F)) t ->
+    wf_tree g t /\ root_sym g t = Some (NT start) /\ (strict = true -> spans_ok t) /\
+    chain_ok sk (leaves t) /\ All (leaf_ok tokok) (leaves t) /\
+    match bounds (leaves t) with
+    | None => consume = true -> sk pos0 = in_len
+    | Some (fs, le) => fs = sk pos0 /\ le <= in_len /\ (consume = true -> sk le = in_len)
+    end.
+Proof.
+  unfold forest_ok_labelled_full. intros H t Ht.
+  apply andb_true_iff in H. destruct H as [H _].
+  apply andb_true_iff in H. destruct H as [Hc Hroot].
+  destruct (unfolds_label g tokok sk strict F labels Hc _ _ Ht) as (sm & Hlab & Hsm).
+  rewrite Hlab in Hroot.
+  destruct (tsum_sound g tokok sk strict t sm Hsm) as (Hwf & Hrs & Hsp & Hch & Hb & Hlf).
+  unfold root_ok in Hroot. apply andb_true_iff in Hroot. destruct Hroot as [Hsym Hfl].
+  apply sym_eqb_eq in Hsym. rewrite Hsym in Hrs.
+  split; [exact Hwf|]. split; [exact Hrs|]. split; [intros Hs; apply Hsp; exact Hs|]. split; [exact Hch|].
+  split; [exact Hlf|]. rewrite Hb.
+  destruct (sm_fl sm) as [[fs le]|].
+  - apply andb_true_iff in Hfl. destruct Hfl as [Hfl Hle].
+    apply andb_true_iff in Hfl. destruct Hfl as [Hfs Hcons].
+    apply N.eqb_eq in Hfs. apply N.leb_le in Hle. split; [exact Hfs|]. split; [exact Hle|].
+    intros ->. cbn in Hcons. apply N.eqb_eq in Hcons. exact Hcons.
+  - intros ->. cbn in Hfl. apply N.eqb_eq in Hfl. exact Hfl.
+Qed.
